@@ -31,7 +31,14 @@ impl Story {
         let path = Path::new_with_components_string(Some(path_string));
 
         // Expected to be global story, knot, or stitch
-        let mut flow_container = self.content_at_path(&path).container().unwrap();
+        let mut flow_container = match self.content_at_path(&path).container() {
+            Some(container) => container,
+            None => {
+                return Err(StoryError::BadArgument(format!(
+                    "'{path_string}' is not the path of a knot or stitch"
+                )));
+            }
+        };
 
         while let Some(first_content) = flow_container.content.first() {
             if let Ok(container) = first_content.clone().into_any().downcast::<Container>() {
